@@ -94,40 +94,96 @@ Let cfg := cfg_of q.
 Lemma cfg_plain_write w st k r : chain_write w cfg st k r = base_write w st r.
 Proof. unfold chain_write, cfg, cfg_of. cbn. rewrite Ho. cbn. unfold uniq_write. cbn. rewrite Hd. unfold top_write. cbn. rewrite Ht. reflexivity. Qed.
 
-(* all records updated and written, for a writer that never refuses *)
+(* one record, updated and written, for a writer that never refuses *)
+Lemma process_record_update jm ls nr a b matched r nu' :
+  update_partner expr q jm nr a = Ok (b, matched) ->
+  update_row expr eval q asg nr a b matched (l_nu ls) = Ok (r, nu') ->
+  exists ls1, process_record eval yes q jm ls nr a = (ls1, Continue)
+              /\ written (l_chain ls1) = written (l_chain ls) ++ [r] /\ l_nu ls1 = nu' /\ l_agg ls1 = l_agg ls.
+Proof.
+  intros Hp Hr. unfold process_record. rewrite Hk. unfold update_partner in Hp. unfold update_row in Hr.
+  assert (Hpu : forall b0 m0, (b0, m0) = (b, matched) ->
+            exists ls1, process_update eval yes q ls nr a b0 m0 asg = (ls1, Continue)
+                        /\ written (l_chain ls1) = written (l_chain ls) ++ [r] /\ l_nu ls1 = nu' /\ l_agg ls1 = l_agg ls).
+  { intros b0 m0 Heq. injection Heq as -> ->. unfold process_update. unfold env_of in Hr.
+    apply bind_ok in Hr. destruct Hr as [ok [Hok Hr]]. rewrite Hok. destruct ok.
+    - apply bind_ok in Hr. destruct Hr as [r' [Hr' Hr]]. injection Hr as <- <-. rewrite Hr'.
+      fold cfg. rewrite cfg_plain_write. unfold base_write, yes. eexists. split; [reflexivity|].
+      cbn [l_chain l_nu l_agg]. split; [|split; reflexivity].
+      unfold written. cbn [s_trace rev]. rewrite flat_map_app. cbn. reflexivity.
+    - injection Hr as <- <-. fold cfg. rewrite cfg_plain_write. unfold base_write, yes. eexists. split; [reflexivity|].
+      cbn [l_chain l_nu l_agg]. split; [|split; reflexivity].
+      unfold written. cbn [s_trace rev]. rewrite flat_map_app. cbn. reflexivity. }
+  destruct (q_join q) as [js|]; [destruct jm as [m|]|].
+  - apply bind_ok in Hp. destruct Hp as [k [Hkey Hp]]. apply bind_ok in Hp. destruct Hp as [ms [Hms Hp]].
+    rewrite Hkey. cbn [bind]. rewrite Hms. destruct ms as [|b1 [|b2 ms]]; try discriminate; injection Hp as <- <-; apply Hpu; reflexivity.
+  - injection Hp as <- <-. apply Hpu; reflexivity.
+  - injection Hp as <- <-. apply Hpu; reflexivity.
+Qed.
+
+(* a failing record *)
+Lemma process_record_update_error jm ls nr a e :
+  update_record_error expr eval q asg jm nr (l_nu ls) a = Some e ->
+  exists ls1, process_record eval yes q jm ls nr a = (ls1, Fail e) /\ l_chain ls1 = l_chain ls.
+Proof.
+  unfold update_record_error. intros H. unfold process_record. rewrite Hk. unfold update_partner in H.
+  assert (Hpu : forall b0 m0, (match update_row expr eval q asg nr a b0 m0 (l_nu ls) with Err e0 => Some e0 | Ok _ => None end) = Some e ->
+            exists ls1, process_update eval yes q ls nr a b0 m0 asg = (ls1, Fail e) /\ l_chain ls1 = l_chain ls).
+  { intros b0 m0 Hr. unfold update_row, env_of in Hr. unfold process_update.
+    destruct (if m0 then where_ok eval q _ else Ok false) as [[|]|e1].
+    - cbn [bind] in Hr. destruct (apply_assigns eval _ _ asg) as [r'|e2]; [discriminate|]. injection Hr as ->.
+      eexists. split; reflexivity.
+    - discriminate.
+    - injection Hr as ->. eexists. split; reflexivity. }
+  destruct (q_join q) as [js|]; [destruct jm as [m|]|].
+  - destruct (lhs_key (j_lhs js) nr a) as [k|e1]; cbn [bind] in *.
+    + destruct (get_rhs (j_kind js) m k) as [ms|e2]; cbn [bind] in *.
+      * destruct ms as [|b1 [|b2 ms]]; cbn [fst snd] in H; [apply Hpu; assumption | apply Hpu; assumption|].
+        injection H as <-. exists ls. split; reflexivity.
+      * injection H as <-. exists ls. split; reflexivity.
+    + injection H as <-. exists ls. split; reflexivity.
+  - cbn [fst snd] in H. apply Hpu; assumption.
+  - cbn [fst snd] in H. apply Hpu; assumption.
+Qed.
+
+(* a prefix of records updated and written; the loop continues with the rest *)
+Lemma main_loop_update_app jm : forall A1 ls nr rows nu' A2,
+  update_all_nu expr eval q asg jm nr (l_nu ls) A1 = Ok (rows, nu') ->
+  exists ls1, main_loop eval yes q jm ls nr (A1 ++ A2) = main_loop eval yes q jm ls1 (nr + length A1) A2
+              /\ written (l_chain ls1) = written (l_chain ls) ++ rows /\ l_nu ls1 = nu' /\ l_agg ls1 = l_agg ls.
+Proof.
+  induction A1 as [|a A1 IH]; intros ls nr rows nu' A2 H.
+  - cbn in H. injection H as <- <-. exists ls. cbn. rewrite app_nil_r, Nat.add_0_r. repeat split.
+  - cbn [update_all_nu] in H. apply bind_ok in H. destruct H as [[b matched] [Hp H]].
+    apply bind_ok in H. destruct H as [[r nu1] [Hr H]]. apply bind_ok in H. destruct H as [[rs nu2] [Hrs H]]. injection H as <- <-.
+    cbn [fst snd] in *. cbn [app main_loop].
+    destruct (process_record_update jm ls (S nr) a b matched r nu1 Hp Hr) as [ls1 [H1 [H2 [H3 H4]]]]. rewrite H1.
+    subst nu1. destruct (IH ls1 (S nr) rs nu2 A2 Hrs) as [ls2 [L1 [L2 [L3 L4]]]].
+    exists ls2. rewrite L1. split; [f_equal; cbn; lia|]. split; [rewrite L2, H2, <- app_assoc; reflexivity|].
+    split; [assumption | congruence].
+Qed.
+
 Lemma main_loop_update jm : forall A ls nr rows,
   update_all expr eval q asg jm nr (l_nu ls) A = Ok rows ->
   exists ls', main_loop eval yes q jm ls nr A = (ls', nr + length A, None)
+              /\ written (l_chain ls') = written (l_chain ls) ++ rows /\ l_agg ls' = l_agg ls.
+Proof.
+  intros A ls nr rows H. unfold update_all in H. apply bind_ok in H. destruct H as [[rs nu'] [H H2]]. injection H2 as <-.
+  destruct (main_loop_update_app jm A ls nr rs nu' [] H) as [ls1 [L1 [L2 [L3 L4]]]].
+  rewrite app_nil_r in L1. exists ls1. rewrite L1. cbn. repeat split; assumption.
+Qed.
+
+(* the first record whose update fails stops the query with that record's number; earlier records are written *)
+Lemma main_loop_update_first_offender jm A1 a A2 ls nr rows nu' e :
+  update_all_nu expr eval q asg jm nr (l_nu ls) A1 = Ok (rows, nu') ->
+  update_record_error expr eval q asg jm (S (nr + length A1)) nu' a = Some e ->
+  exists ls', main_loop eval yes q jm ls nr (A1 ++ a :: A2) = (ls', S (nr + length A1), Some (classify (S (nr + length A1)) e))
               /\ written (l_chain ls') = written (l_chain ls) ++ rows.
 Proof.
-  induction A as [|a A IH]; intros ls nr rows H.
-  - cbn in H. injection H as <-. exists ls. cbn. rewrite app_nil_r, Nat.add_0_r. split; reflexivity.
-  - cbn [update_all] in H. apply bind_ok in H. destruct H as [[b matched] [Hp H]].
-    apply bind_ok in H. destruct H as [[r nu'] [Hr H]]. apply bind_ok in H. destruct H as [rs [Hrs H]]. injection H as <-.
-    cbn [fst snd] in *. cbn [main_loop].
-    assert (Hrec : exists ls1, process_record eval yes q jm ls (S nr) a = (ls1, Continue)
-                               /\ written (l_chain ls1) = written (l_chain ls) ++ [r] /\ l_nu ls1 = nu').
-    { unfold process_record. rewrite Hk. unfold update_partner in Hp. unfold update_row in Hr.
-      assert (Hpu : forall b0 m0, (b0, m0) = (b, matched) ->
-                exists ls1, process_update eval yes q ls (S nr) a b0 m0 asg = (ls1, Continue)
-                            /\ written (l_chain ls1) = written (l_chain ls) ++ [r] /\ l_nu ls1 = nu').
-      { intros b0 m0 Heq. injection Heq as -> ->. unfold process_update. unfold env_of in Hr.
-        apply bind_ok in Hr. destruct Hr as [ok [Hok Hr]]. rewrite Hok. destruct ok.
-        - apply bind_ok in Hr. destruct Hr as [r' [Hr' Hr]]. injection Hr as <- <-. rewrite Hr'.
-          fold cfg. rewrite cfg_plain_write. unfold base_write, yes. eexists. split; [reflexivity|].
-          cbn [l_chain l_nu]. split; [|reflexivity].
-          unfold written. cbn [s_trace rev]. rewrite flat_map_app. cbn. reflexivity.
-        - injection Hr as <- <-. fold cfg. rewrite cfg_plain_write. unfold base_write, yes. eexists. split; [reflexivity|].
-          cbn [l_chain l_nu]. split; [|reflexivity].
-          unfold written. cbn [s_trace rev]. rewrite flat_map_app. cbn. reflexivity. }
-      destruct (q_join q) as [js|]; [destruct jm as [m|]|].
-      - apply bind_ok in Hp. destruct Hp as [k [Hkey Hp]]. apply bind_ok in Hp. destruct Hp as [ms [Hms Hp]].
-        rewrite Hkey. cbn [bind]. rewrite Hms. destruct ms as [|b1 [|b2 ms]]; try discriminate; injection Hp as <- <-; apply Hpu; reflexivity.
-      - injection Hp as <- <-. apply Hpu; reflexivity.
-      - injection Hp as <- <-. apply Hpu; reflexivity. }
-    destruct Hrec as [ls1 [H1 [H2 H3]]]. rewrite H1.
-    subst nu'. destruct (IH ls1 (S nr) rs Hrs) as [ls' [L1 L2]].
-    exists ls'. rewrite L1. split; [f_equal; f_equal; cbn; lia|]. rewrite L2, H2, <- app_assoc. reflexivity.
+  intros H He. destruct (main_loop_update_app jm A1 ls nr rows nu' (a :: A2) H) as [ls1 [L1 [L2 [L3 L4]]]].
+  rewrite L1. cbn [main_loop]. rewrite <- L3 in He.
+  destruct (process_record_update_error jm ls1 (S (nr + length A1)) a e He) as [ls2 [P1 P2]]. rewrite P1.
+  exists ls2. split; [reflexivity|]. rewrite P2. assumption.
 Qed.
 
 End Q.
@@ -169,13 +225,13 @@ Proof.
     apply IH. assumption. }
   destruct (q_join q) as [js|] eqn:Ej.
   - destruct (build (j_rhs js) B) as [m|bnr] eqn:Eb; [|discriminate]. injection Hjm as <-.
-    destruct (main_loop_update q asg Hk Ho Hd Ht (Some m) A ls0 0 rows Hu) as [ls' [L1 L2]].
+    destruct (main_loop_update q asg Hk Ho Hd Ht (Some m) A ls0 0 rows Hu) as [ls' [L1 [L2 _]]].
     pose proof (Hagg_keep (Some m) A ls0 0 eq_refl) as Hl. rewrite L1 in *. cbn [fst] in Hl.
     unfold ls0 in L2. cbn [l_chain] in L2. rewrite written_set_header in L2.
     change (written chain_init) with (@nil row) in L2. cbn [app] in L2.
     specialize (Hfin ls' (0 + length A) Hl L2). destruct (finish yes q ls'). exact Hfin.
   - injection Hjm as <-.
-    destruct (main_loop_update q asg Hk Ho Hd Ht None A ls0 0 rows Hu) as [ls' [L1 L2]].
+    destruct (main_loop_update q asg Hk Ho Hd Ht None A ls0 0 rows Hu) as [ls' [L1 [L2 _]]].
     pose proof (Hagg_keep None A ls0 0 eq_refl) as Hl. rewrite L1 in *. cbn [fst] in Hl.
     unfold ls0 in L2. cbn [l_chain] in L2. rewrite written_set_header in L2.
     change (written chain_init) with (@nil row) in L2. cbn [app] in L2.
@@ -192,14 +248,21 @@ Proof.
   - injection H as <- <-. apply map_length.
 Qed.
 
-Lemma update_all_shape (q : query) asg jm : forall A nr nu rows,
+Lemma update_all_nu_shape (q : query) asg jm : forall A nr nu rows nu',
+  update_all_nu expr eval q asg jm nr nu A = Ok (rows, nu') -> Forall2 (fun r a => length r = length a) rows A.
+Proof.
+  induction A as [|a A IH]; intros nr nu rows nu' H.
+  - cbn in H. injection H as <- <-. constructor.
+  - cbn [update_all_nu] in H. apply bind_ok in H. destruct H as [[b m] [_ H]].
+    apply bind_ok in H. destruct H as [[r nu1] [Hr H]]. apply bind_ok in H. destruct H as [[rs nu2] [Hrs H]]. injection H as <- <-.
+    constructor; [eapply update_row_length; eassumption | eapply IH; eassumption].
+Qed.
+
+Lemma update_all_shape (q : query) asg jm A nr nu rows :
   update_all expr eval q asg jm nr nu A = Ok rows -> Forall2 (fun r a => length r = length a) rows A.
 Proof.
-  induction A as [|a A IH]; intros nr nu rows H.
-  - cbn in H. injection H as <-. constructor.
-  - cbn [update_all] in H. apply bind_ok in H. destruct H as [[b m] [_ H]].
-    apply bind_ok in H. destruct H as [[r nu'] [Hr H]]. apply bind_ok in H. destruct H as [rs [Hrs H]]. injection H as <-.
-    constructor; [eapply update_row_length; eassumption | eapply IH; eassumption].
+  unfold update_all. intros H. apply bind_ok in H. destruct H as [[rs nu'] [H H2]]. injection H2 as <-.
+  eapply update_all_nu_shape; eassumption.
 Qed.
 
 End U.
